@@ -18,7 +18,7 @@ ASSUMPTIONS = ["dE_pot/dt is computed by Richardson central differences of the r
                "comparison tolerance 1e-6*max(1,|.|) + 20*uncertainty; passivity sign test with tolerance 1e-9*(|P|+|E_dot|)",
                "revolute states lie on the joint manifold (constructed by an independent model of the joint), as the property states",
                "k, d, eta log-uniform in [1e-3, 1e3]"]
-REQUIRED_MONITORS = ["ENERGY:conservative", "ENERGY:passive", "COMPLIANCE:residual", "E_pot:succeeds", "ENERGY:gyroscopic"]
+REQUIRED_MONITORS = ["ENERGY:conservative", "ENERGY:passive", "COMPLIANCE:residual", "E_pot:succeeds", "ENERGY:gyroscopic", "SWEEP:inplace_arguments"]
 FORMAT_TWIN = True          # ambient monitor: every System matrix is also requested in the other documented formats (vlib/formattwin.py)
 META = {
     "level_text": "Exploration: energy bookkeeping on the real System methods (E_pot, h, W_c, la_c, c) of generated systems at generated states: conservative elements do exactly the work their energy predicts, dissipative ones never create energy, compliance form and force form describe the same force. Held on the systems and states generated.",
@@ -160,6 +160,7 @@ def run_case(spec, ctx):
             ctx.cls(f"pair:{kind}:{pair[0]}-{pair[1]}")
         # remove the element-independent contributions: evaluate the element's own methods through System by
         # building the power balance of the whole system minus the same system's other contributions
+        visited = []
         for k in range(3):
             system.reset()
             if k == 2 and kind in ("tpi", "rev") and law != "Maxwell" and rng.random() < 0.6:
@@ -207,6 +208,7 @@ def run_case(spec, ctx):
                     det_state["q_dtype"] = "int64"
                     ctx.cls("state:integer_dtype")
             ex = {**det, **det_state, "t": t, "q": q, "u": u}
+            visited.append((t, np.array(q, dtype=float), np.array(u, dtype=float)))
             nontrivial |= bool(np.any(u))
             # ---- total potential energy must be evaluable
             ctx.mon("E_pot:succeeds")
@@ -294,5 +296,32 @@ def run_case(spec, ctx):
                     ctx.violation(f"{spec['kind']}.c", "compliance residual does not vanish at the force-form force", {**ex, "la_c": la, "c": c})
                 if abs(la[0] - ref) > 1e-9 * (1 + abs(ref)):
                     ctx.violation(f"{spec['kind']}.la_c", "force differs from -k (l - l_ref) - d l_dot", {**ex, "la_c": la, "reference": ref})
+    # ---- sweep with ONE long-lived state array: the element (and its interaction) is called directly on arrays that the caller refills in
+    # place between the states (a parameter sweep, a finite-difference loop); the values must be those obtained with fresh arrays
+    if kind == "tpi" and len(visited) >= 2:      # (a Revolute joint counts full turns between calls by design: its angle is history-dependent)
+        from vlib.oracles import inplace_check
+        if rng.random() < 0.6:
+            visited = [(visited[0][0], v[1], v[2]) for v in visited]       # one instant, several states (finite differences, Newton iterates)
+            ctx.cls("sweep:same_time")
+        sets_q = [(v[0], v[1][inter.qDOF]) for v in visited[:5]]
+        sets_qu = [(v[0], v[1][inter.qDOF], v[2][inter.uDOF]) for v in visited[:5]]
+        calls = []
+        for name, sets in (("l", sets_q), ("l_q", sets_q), ("W_l", sets_q), ("l_dot", sets_qu)):
+            if hasattr(inter, name):
+                calls.append((f"{type(inter).__name__}.{name}", getattr(inter, name), sets, {}))
+        e_q = [(v[0], v[1][elem.qDOF]) for v in visited[:5]]
+        e_qu = [(v[0], v[1][elem.qDOF], v[2][elem.uDOF]) for v in visited[:5]]
+        for name, sets in (("E_pot", e_q), ("h", e_qu), ("la_c", e_qu), ("W_c", e_q)):
+            if hasattr(elem, name):
+                calls.append((f"{spec['kind']}.{name}", (lambda *a, f_=getattr(elem, name): dense(f_(*a)) if name == "W_c" else f_(*a)), sets, {}))
+        usable = []
+        with gen.quiet():
+            for c_ in calls:
+                try:        # entry points that this element variant does not support (compliance methods of a force-form element) are not the subject here
+                    c_[1](*[np.array(a, copy=True) if isinstance(a, np.ndarray) else a for a in c_[2][0]])
+                    usable.append(c_)
+                except Exception:
+                    ctx.count("sweep_entry_point_not_supported", 1)
+            inplace_check(ctx, usable, mon="SWEEP:inplace_arguments")
     ctx.sig([det], nontrivial=nontrivial or kind == "gyro")
     ctx.sample(det)
